@@ -141,6 +141,7 @@ var c11Vals = []TV{
 	tvMap(map[string]TV{}), tvMap(map[string]TV{"a": tvMap(map[string]TV{"b": tvList(tvMap(map[string]TV{"c": tvI(1)}), tvMap(map[string]TV{"c": tvS("x")}))})}), {K: "map[string]string", M: map[string]TV{"a": tvS("b")}}, {K: "map[string]int", M: map[string]TV{"a": tvI(1)}}, {K: "map[int]string", L: []TV{tvS("zero"), tvS("one")}}, {K: "nilmap"},
 	{K: "Item", M: map[string]TV{"title": tvS("t"), "hidden": tvS("h"), "tags": tvList(tvS("x"))}}, {K: "*Item", M: map[string]TV{"title": tvS("t"), "sub": {M: map[string]TV{"title": tvS("s")}}}}, {K: "nil*Item"}, {K: "Emb", S: "e", M: map[string]TV{"title": tvS("t")}}, {K: "[]Item", L: []TV{{M: map[string]TV{"title": tvS("a")}}}}, {K: "[]*Item", L: []TV{{M: map[string]TV{"title": tvS("a")}}}},
 	{K: "NamedBool", B: true}, {K: "NamedBool"}, {K: "NamedInt", I: 3}, {K: "NamedInt"}, {K: "NamedInt8", I: -1}, {K: "NamedUint8", U: 5}, {K: "NamedUint8"}, {K: "NamedUint64", U: 1 << 63}, {K: "NamedFloat", F: 0.5}, {K: "NamedString", S: "ns"}, {K: "NamedString"}, {K: "FileMode", U: 0o644}, {K: "FileMode"}, {K: "Duration", I: 1500}, {K: "Month", I: 2},
+	{K: "nil*[]any"}, {K: "nil*[]Item"}, {K: "nil*map"}, {K: "nil*[2]int"}, {K: "*[]any"}, {K: "*map"},
 	{K: "nil*time"}, {K: "nil*Stringer"}, {K: "nil*error"}, {K: "*time", I: 1700000000}, {K: "Stringer", S: "s"}, {K: "error", S: "e"},
 	{K: "time", I: 1700000000}, {K: "chan"}, {K: "func"}, {K: "struct{}"}, {K: "cyclic*Item"}, {K: "deep"},
 }
